@@ -794,7 +794,7 @@ def run(ctx: Any) -> None:
     thorough = ctx.tier == "thorough"
     for m in corpus():
         check_producer(ctx, m, n_caps=8 if not thorough else 14, n_resume=6 if not thorough else 1000)
-    for _ in range(ctx.budget(24, 700)):
+    for _ in range(ctx.budget(24, 550)):
         check_producer(ctx, gen_producer(rng), n_caps=5 if not thorough else 10, n_resume=4 if not thorough else 1000)
 
 
